@@ -282,25 +282,27 @@ Definition feed_ts (c : cfg) (s : gstate) (boundary : bool) : gstate :=
 Definition rtp_pt (raw : bytes) : option N :=
   match parse_rtp_header true raw with Ok h => Some (rh_pt h) | _ => None end.
 
-(* sdpCtx.IsVideoPayloadTypeOrigin: the packet belongs to the video track (payload type 96 in every SDP of the harness) *)
-Definition rtp_is_video (raw : bytes) : bool :=
-  match rtp_pt raw with Some pt => pt =? 96 | None => false end.
-
-(* the switch on sdpCtx.GetVideoPayloadTypeBase(): IsAvcBoundary / IsHevcBoundary (models of C13) of a packet of
-   the video track - an audio packet starts no GOP, whatever its payload looks like (lal fix of C06) -, true otherwise *)
-Definition rtp_is_boundary (v : vcodec) (raw : bytes) : bool :=
-  match v with
-  | VOther => true
-  | VAvc => rtp_is_video raw && match rtp_boundary true false raw with Ok b => b | _ => false end
-  | VHevc => rtp_is_video raw && match rtp_boundary true true raw with Ok b => b | _ => false end
-  end.
-
-(* the pinned test (before that fix): the payload type was not looked at *)
-Definition rtp_is_boundary_pinned (v : vcodec) (raw : bytes) : bool :=
+(* the CLASSIFIER's verdict on the packet bytes: IsAvcBoundary / IsHevcBoundary (models of C13).  It looks at the
+   payload only - it says "GOP start" for any packet whose first payload bytes read as IDR / SPS / PPS (VPS, IRAP),
+   STAP-A or FU with such a unit, whatever track the packet belongs to *)
+Definition rtp_verdict (v : vcodec) (raw : bytes) : bool :=
   match v with
   | VOther => true
   | VAvc => match rtp_boundary true false raw with Ok b => b | _ => false end
   | VHevc => match rtp_boundary true true raw with Ok b => b | _ => false end
+  end.
+
+(* the packet's TRACK: sdpCtx.IsVideoPayloadTypeOrigin(pkt.Header.PacketType); every SDP of the harness announces video as 96 *)
+Definition rtp_video_pt : N := 96.
+Definition rtp_is_video (pt : N) : bool := pt =? rtp_video_pt.
+
+(* the switch on sdpCtx.GetVideoPayloadTypeBase() in feedRtpPacket: with a codec lal can classify, a GOP start is
+   a packet of the video track with a positive verdict; otherwise every packet passes.
+   [fx = false]: the tree before fix F-34, where the verdict alone decided - also for audio packets *)
+Definition rtp_is_boundary (fx : bool) (v : vcodec) (pt : N) (raw : bytes) : bool :=
+  match v with
+  | VOther => true
+  | _ => (negb fx || rtp_is_video pt) && rtp_verdict v raw
   end.
 
 (* payload types every SDP of the harness announces (video 96, audio 97):
@@ -317,14 +319,14 @@ Definition rtsp_step (waitcfg boundary written : bool) (l : label) (c : consumer
     if negb waitcfg || negb (c_wait c) then w
     else if boundary then c_set w false false else c.
 
-Definition feed_rtp (c : cfg) (s : gstate) (raw : bytes) : gstate :=
+Definition feed_rtp_gen (fx : bool) (c : cfg) (s : gstate) (raw : bytes) : gstate :=
   let j := g_next_rtp s in
   let subs' :=
     match rtp_pt raw with
     | None => g_subs s     (* ParseRtpPacket fails: never reaches the group *)
     | Some pt =>
         (* no SDP in force (the input ended): nothing reaches a waiting session *)
-        let boundary := match g_sdp s with None => false | Some _ => rtp_is_boundary (g_vcodec s) raw end in
+        let boundary := match g_sdp s with None => false | Some _ => rtp_is_boundary fx (g_vcodec s) pt raw end in
         map (rtsp_step (cf_rtsp_wait c) boundary (rtp_pt_written pt) (LRtp j)) (g_subs s)
     end in
   {| g_next := g_next s; g_next_ts := g_next_ts s; g_next_pat := g_next_pat s;
@@ -333,6 +335,8 @@ Definition feed_rtp (c : cfg) (s : gstate) (raw : bytes) : gstate :=
      g_video_known := g_video_known s; g_subs := subs'; g_gone := g_gone s;
      g_rec_open := g_rec_open s; g_rec := g_rec s; g_in := g_in s;
      g_next_rtp := S j; g_vcodec := g_vcodec s; g_hook := g_hook s; g_trec := g_trec s |}.
+
+Definition feed_rtp := feed_rtp_gen true.
 
 (* feedWaitRtspSubSessions: sessions still in stage ReadDescribe get the SDP *)
 Definition sdp_step (l : label) (c : consumer) : consumer :=
@@ -425,6 +429,11 @@ Definition step (c : cfg) (s : gstate) (e : ev) : gstate :=
   end.
 
 Definition run (c : cfg) (h : list ev) : gstate := fold_left (step c) h (g_init c).
+
+(* the tree before fix F-34 (kept for the refutation witness only) *)
+Definition step_pinned (c : cfg) (s : gstate) (e : ev) : gstate :=
+  match e with EvRtp raw => feed_rtp_gen false c s raw | _ => step c s e end.
+Definition run_pinned (c : cfg) (h : list ev) : gstate := fold_left (step_pinned c) h (g_init c).
 
 (* observation: every consumer that ever existed, by id *)
 Definition all_consumers (s : gstate) : list consumer := g_gone s ++ g_subs s.
